@@ -736,6 +736,8 @@ pub fn run_stress(cfg: &StressCfg, shard: &mut Shard) -> (u64, u64, bool) {
     let mut next_sample = target / 4;
     let mut base_live: Option<i64> = None;
     let mut base_bytes: i64 = 0;
+    let mut base_hist: Vec<i64> = Vec::new();
+    let mut last_hist: Vec<i64> = Vec::new();
     let mut id0 = 1u64;
     loop {
         let c = sh.cycles.load(SeqCst);
@@ -787,8 +789,10 @@ pub fn run_stress(cfg: &StressCfg, shard: &mut Shard) -> (u64, u64, bool) {
                         None => {
                             base_live = Some(blocks);
                             base_bytes = bytes;
+                            base_hist = calloc::size_histogram();
                         }
                         Some(b0) => {
+                            last_hist = calloc::size_histogram();
                             growth_samples.push(blocks - b0);
                             shard.stat_max("peak_growth_bytes_concurrent(info)", (bytes - base_bytes).max(0) as u64);
                         }
@@ -843,11 +847,12 @@ pub fn run_stress(cfg: &StressCfg, shard: &mut Shard) -> (u64, u64, bool) {
                     "churn-growth",
                     "churn-growth:concurrent".to_string(),
                     format!(
-                        "with concurrent traffic the number of live allocations grew by {} between plateau measurements taken after every handle had operated six more times ({} cycles; bound {} blocks): {}",
+                        "with concurrent traffic the number of live allocations grew by {} between plateau measurements taken after every handle had operated six more times ({} cycles; bound {} blocks): {} | growth by block size: {:?}",
                         mx,
                         sh.cycles.load(SeqCst),
                         GROWTH_BLOCKS_CONCURRENT,
-                        cfg.describe()
+                        cfg.describe(),
+                        base_hist.iter().zip(last_hist.iter()).enumerate().filter(|(_, (a, b))| *b - *a > 8).map(|(i, (a, b))| (i, b - a)).collect::<Vec<_>>()
                     ),
                 );
             }
@@ -889,7 +894,11 @@ pub fn run_stress_many(seed: u64, runs: u64, budget_ms: u64, small: bool, measur
         }
         cfg.measure_growth = measure_growth;
         if measure_growth {
+            // the growth bound is about a fixed set of handles that keep operating: no idle handles, and no
+            // handles parked in the hand-off queue of the dropper threads (both legitimately hold back
+            // reclamation for as long as they exist)
             cfg.idle_handles = false;
+            cfg.droppers = 0;
         }
         let (sig, _frees, nontrivial) = run_stress(&cfg, shard);
         shard.evaluations += 1;
